@@ -80,6 +80,9 @@ Qed.
 Lemma log_ext_In : forall n n' q, log_ext n n' -> In q (n_log n) -> In q (n_log n').
 Proof. intros n n' q [l H] Hi. rewrite H. apply in_or_app. right. exact Hi. Qed.
 
+Lemma log_ext_cancel_if : forall (b : bool) n, log_ext n (if b then cancel_net n else n).
+Proof. intros [|] n; exists []; reflexivity. Qed.
+
 Lemma exchange_log : forall w pin a np r n x n',
   exchange w pin a np r n = (x, n') -> log_ext n n'.
 Proof.
@@ -88,12 +91,12 @@ Proof.
   destruct (negb (pin_ok pin a)); [inversion H; apply log_ext_refl|].
   destruct (negb (alive w a)); inversion H; subst; simpl.
   - exists [(a, np, r, None)]. reflexivity.
-  - exists [(a, np, r, Some (hd FOk (n_script n)))]. reflexivity.
+  - exists [(a, np, r, Some (resp_fault (hd FOk (n_script n))))]. reflexivity.
 Qed.
 
 (* the callback succeeds only on the publisher's genuine answer, un-faulted *)
-Lemma apply_fault_good : forall f g, apply_fault f g = XOkGood -> f = FOk /\ g = XOkGood.
-Proof. intros f g H. destruct f; simpl in H; try discriminate; [tauto | destruct g; discriminate ..]. Qed.
+Lemma apply_fault_good : forall f g, apply_fault f g = XOkGood -> resp_fault f = FOk /\ g = XOkGood.
+Proof. intros f g H. destruct f; simpl in H; try discriminate; try tauto; destruct g; discriminate. Qed.
 
 Lemma genuine_cases : forall w np, genuine w np = XOkGood \/ exists c, genuine w np = XStatus c.
 Proof.
@@ -116,8 +119,8 @@ Proof.
   destruct (n_cancelled n); [discriminate|].
   destruct (negb (pin_ok pin a)); [discriminate|].
   destruct (negb (alive w a)); [discriminate|].
-  inversion H as [[Hx Hn]]. apply apply_fault_good in Hx. destruct Hx as [Hf Hg].
-  rewrite Hf. simpl. tauto.
+  injection H as Hx Hn. subst n'. apply apply_fault_good in Hx. destruct Hx as [Hf Hg].
+  simpl. rewrite Hf. split; [exact Hg | reflexivity].
 Qed.
 
 Lemma exchange_200_nopath_legacy : forall w pin a r n x n',
@@ -321,6 +324,7 @@ Proof.
         intros q Hq. destruct (W6 q Hq) as [|[Hi He]]; [left; assumption|].
         right. split; [apply in_or_app; left; exact Hi | exact He].
       * apply IH in H; [|exact W1]. destruct H as [H1 [H2 [H3 [H4 [H5 [H6 [H7 H8]]]]]]].
+        apply (log_ext_trans n1 _ _ (log_ext_cancel_if _ n1)) in H4.
         rsplit; try congruence; eauto using log_ext_trans.
         -- intros q Hq. apply H5. apply W5. exact Hq.
         -- intros q Hq. destruct (H6 q Hq) as [Hq'|[Hi He]].
@@ -557,6 +561,7 @@ Proof.
         intros q Hq. destruct (W6 q Hq) as [|[Hi He]]; [left; assumption|].
         right. split; [apply in_or_app; left; exact Hi | exact He].
       * apply IH in H. destruct H as [H4 [H5 [H6 [H7 H8]]]].
+        apply (log_ext_trans n1 _ _ (log_ext_cancel_if _ n1)) in H4.
         repeat split; eauto using log_ext_trans.
         -- intros q Hq. apply H5. apply W5. exact Hq.
         -- intros q Hq. destruct (H6 q Hq) as [Hq'|[Hi He]].
@@ -709,6 +714,33 @@ Proof.
     + destruct (fx_announce fx); simpl; [|tauto]. intros [H|[]]. discriminate.
 Qed.
 
+(* a sync that reports success is complete: whatever faults and cancellations (in a request,
+   between two requests, from the block hook between two segments) occurred on the way, every
+   block from the head down to the latest-synced one is in the store *)
+Lemma success_is_complete_l : forall fx w seg o st h c,
+  In (EvOk h c) (o_events (snd (step fx w seg o st))) ->
+  sub (todo h (s_latest st)) (s_store (fst (step fx w seg o st))).
+Proof.
+  intros fx w seg o st h c. unfold step. destruct (op_mode o).
+  - unfold sync_explicit.
+    destruct (make_syncer w st (op_addrs o) (op_discfail o)) as [[sy|] st1] eqn:Hm;
+      destruct (make_syncer_frame _ _ _ _ _ _ Hm) as [Hl [Hs _]]; [|simpl; tauto].
+    destruct (fetch fx w Head sy (net0 o)) as [[res sy1] n1]. destruct res; simpl; try tauto.
+    destruct (s_latest st1 =? op_head o); simpl; [tauto|].
+    destruct (handle fx w seg (op_head o) (s_latest st1) (op_hookfail o) sy1 n1 (s_store st1)) as [ok cnt hk sy' n' store'] eqn:Hh.
+    destruct (handle_store _ _ _ _ _ _ _ _ _ _ Hh) as [_ [_ [_ [H7 _]]]]. simpl in *.
+    destruct ok; simpl; [|tauto]. intros [H|[]]. inversion H; subst. rewrite <- Hl. apply H7. reflexivity.
+  - unfold sync_announce. destruct (mem (op_head o) (s_cache st)); simpl; [tauto|].
+    destruct (blocked _); simpl; [tauto|].
+    destruct (s_latest st =? op_head o); simpl; [tauto|].
+    destruct (make_syncer w _ (op_addrs o) (op_discfail o)) as [[sy|] st1] eqn:Hm;
+      destruct (make_syncer_frame _ _ _ _ _ _ Hm) as [Hl [Hs _]]; simpl in Hl, Hs.
+    + destruct (handle fx w seg (op_head o) (s_latest st1) (op_hookfail o) sy (net0 o) (s_store st1)) as [ok cnt hk sy' n' store'] eqn:Hh.
+      destruct (handle_store _ _ _ _ _ _ _ _ _ _ Hh) as [_ [_ [_ [H7 _]]]]. simpl in *.
+      destruct ok; simpl; intros [H|[]]; inversion H; subst. rewrite <- Hl. apply H7. reflexivity.
+    + destruct (fx_announce fx); simpl; [|tauto]. intros [H|[]]. discriminate.
+Qed.
+
 (* an announce-triggered sync that fails emits exactly one error event (count 0) and its
    CID leaves the duplicate filter; with the fix, it never fails silently *)
 Lemma async_failure_l : forall fx w seg o st,
@@ -801,6 +833,7 @@ Definition wf_op (w : world) (h : nat) (o : op) : Prop :=
 (* the publisher answers correctly again *)
 Definition retry_ok (w : world) (h : nat) (r : op) : Prop :=
   wf_op w h r /\ op_faults r = [] /\ op_discfail r = false /\ op_hookfail r = None /\
+  op_precancel r = false /\
   exists a, In a (op_addrs r) /\ alive w a = true.
 
 Record HInv (w : world) (S0 : list nat) (L0 h : nat) (st : sstate) : Prop := {
@@ -1069,8 +1102,8 @@ Proof.
   unfold need in Hp. rewrite <- I4, Hl, Nat.eqb_refl in Hp. destruct Hp.
 Qed.
 
-Lemma clean_net0 : forall r, op_faults r = [] -> clean (net0 r).
-Proof. intros r H. unfold clean, net0. simpl. auto. Qed.
+Lemma clean_net0 : forall r, op_faults r = [] -> op_precancel r = false -> clean (net0 r).
+Proof. intros r H H2. unfold clean, net0. simpl. auto. Qed.
 
 (* the fault-free retry, from any state the invariant allows *)
 Lemma retry_from_inv : forall w seg S0 L0 h st r,
@@ -1079,7 +1112,7 @@ Lemma retry_from_inv : forall w seg S0 L0 h st r,
   failed (o_res (snd (step fx_fixed w seg r st))) = false /\
   s_latest st' = h /\ (forall p, In p (s_store st') <-> In p S0 \/ In p (need h L0)).
 Proof.
-  intros w seg S0 L0 h st r Hw Hinv Hsl [[Hh Hal] [Hf [Hd [Hhf [a [Hia Haa]]]]]].
+  intros w seg S0 L0 h st r Hw Hinv Hsl [[Hh Hal] [Hf [Hd [Hhf [Hpc [a [Hia Haa]]]]]]].
   assert (Hne : op_addrs r <> []) by (intros E; rewrite E in Hia; destruct Hia).
   assert (Hds : w_kind w = KStream -> op_discfail r = false) by (intros; exact Hd).
   (* what the sync proper does, from a state whose latest-sync is not h *)
@@ -1104,7 +1137,7 @@ Proof.
     destruct (make_syncer_frame _ _ _ _ _ _ Hm) as [Fl [Fs [Fc _]]].
     destruct (make_syncer_ok w st _ _ _ _ Hw (hi_sy _ _ _ _ _ Hinv) Hal Hm) as [Hok Hel].
     assert (Hg : HasGood w sy) by (apply HasGood_of; [exact Hok | exists a; split; [apply Hel; exact Hia | exact Haa]]).
-    destruct (fetch_clean w Head sy (net0 r) Hw Hok (clean_net0 r Hf) Hg) as [sy1 [n1 [Hft Hc1]]]. rewrite Hft.
+    destruct (fetch_clean w Head sy (net0 r) Hw Hok (clean_net0 r Hf Hpc) Hg) as [sy1 [n1 [Hft Hc1]]]. rewrite Hft.
     destruct (fetch_inv _ _ _ _ _ _ _ Hok Hft) as [Hok1 [A1 [A2 _]]].
     rewrite Hh. destruct (s_latest st1 =? h) eqn:El; simpl.
     + apply Nat.eqb_eq in El. split; [reflexivity|]. split; [exact El|]. rewrite Fs. apply (store_done w S0 L0 h st Hinv). congruence.
@@ -1126,7 +1159,7 @@ Proof.
     destruct (make_syncer_frame _ _ _ _ _ _ Hm) as [Fl [Fs [Fc _]]]. simpl in Fl, Fs, Fc.
     destruct (make_syncer_ok w st0 _ _ _ _ Hw (hi_sy _ _ _ _ _ Hinv) Hal Hm) as [Hok Hel].
     assert (Hg : HasGood w sy) by (apply HasGood_of; [exact Hok | exists a; split; [apply Hel; exact Hia | exact Haa]]).
-    destruct (Hsync st1 sy (net0 r) Fl Fs El Hok Hg (clean_net0 r Hf)) as [Hk Hst]. rewrite Hk. simpl.
+    destruct (Hsync st1 sy (net0 r) Fl Fs El Hok Hg (clean_net0 r Hf Hpc)) as [Hk Hst]. rewrite Hk. simpl.
     split; [reflexivity | split; [reflexivity | exact Hst]].
 Qed.
 
@@ -1192,9 +1225,9 @@ Definition fx_without_announce := {| fx_nopath := true; fx_rotate := true; fx_an
 Definition fx_slot_kept_on_failure := {| fx_nopath := true; fx_rotate := true; fx_announce := true; fx_slot := false |}.
 
 Definition op_e (addrs : list nat) (h : nat) (faults : list fault) : op :=
-  {| op_mode := Explicit; op_addrs := addrs; op_head := h; op_faults := faults; op_discfail := false; op_hookfail := None |}.
+  {| op_mode := Explicit; op_addrs := addrs; op_head := h; op_faults := faults; op_discfail := false; op_hookfail := None; op_precancel := false |}.
 Definition op_a (addrs : list nat) (h : nat) (faults : list fault) (discfail : bool) : op :=
-  {| op_mode := Announce; op_addrs := addrs; op_head := h; op_faults := faults; op_discfail := discfail; op_hookfail := None |}.
+  {| op_mode := Announce; op_addrs := addrs; op_head := h; op_faults := faults; op_discfail := discfail; op_hookfail := None; op_precancel := false |}.
 
 Definition w_plain (al : list bool) := {| w_kind := KPlain; w_legacy := false; w_alive := al |}.
 Definition w_p2p (al : list bool) := {| w_kind := KP2PHttp; w_legacy := false; w_alive := al |}.
@@ -1307,7 +1340,7 @@ Proof. vm_compute. repeat split. Qed.
 
 Example ex_async_failure_segmented_hook :
   let w := w_stream [true] in
-  let o := {| op_mode := Announce; op_addrs := [0]; op_head := 3; op_faults := []; op_discfail := false; op_hookfail := Some 1 |} in
+  let o := {| op_mode := Announce; op_addrs := [0]; op_head := 3; op_faults := []; op_discfail := false; op_hookfail := Some (HFail 1); op_precancel := false |} in
   o_res (snd (step fx_fixed w 2 o (init [] 0))) = RAnnErr /\
   o_events (snd (step fx_fixed w 2 o (init [] 0))) = [EvErr 3 0] /\
   o_hooks (snd (step fx_fixed w 2 o (init [] 0))) = [3; 2] /\
